@@ -22,7 +22,7 @@ import (
 	"mosn.io/mosn/pkg/protocol/xprotocol/dubbo"
 	"mosn.io/mosn/pkg/protocol/xprotocol/dubbothrift"
 	"mosn.io/mosn/pkg/protocol/xprotocol/tars"
-	_ "mosn.io/mosn/pkg/stream/xprotocol"
+	xstream "mosn.io/mosn/pkg/stream/xprotocol"
 	"verif/vh"
 )
 
@@ -69,8 +69,11 @@ var codecs = map[string]api.XProtocolCodec{"bolt": &bolt.XCodec{}, "boltv2": &bo
 
 // registerCodecs makes the codecs available to a running MOSN (and to bolt's boltv2 fall-through).
 func registerCodecs() {
+	xprotocol.RegisterXProtocolAction(xstream.NewConnPool, xstream.NewStreamFactory, func(codec api.XProtocolCodec) {})
 	for _, n := range []string{"bolt", "boltv2", "dubbo", "dubbothrift", "tars"} {
-		_ = xprotocol.RegisterXProtocolCodec(codecs[n])
+		if err := xprotocol.RegisterXProtocolCodec(codecs[n]); err != nil && os.Getenv("VERIF_C01_DEBUG") != "" {
+			fmt.Println("register", n, err)
+		}
 	}
 }
 
